@@ -75,6 +75,12 @@ def checkBlocks (codec : String) (sync : Bytes) : List (List Bytes) → List Byt
   | _ :: _, _, _ => some "fewer writes than the reference partition requires"
 
 def c09 (op : String) (args : List Sexp) : Verdict :=
+  if op == "enc-scenario" then
+    (match args with
+     | [.atom name, .atom codec, .list [.atom "ok"]] => .ok s!"scenario/{name}/{codec}"
+     | [.atom name, _, .list (.atom "violated" :: why)] => .oracle s!"{name}: {why}"
+     | _ => .oracle s!"scenario outcome {args}")
+  else
   if op != "enc" then .bad s!"unknown op {op}" else
   match args.getLast? with
   | some (.list (.atom "panic" :: why)) => .oracle s!"an Encode / Flush call panicked: {why}"
